@@ -71,6 +71,33 @@ def collide_root(l1, l2, key="v", required=False):
         "a_bC": holder(l1)}}
 
 
+def typed_addl_null(c, doc):
+    """does the document put null where an object with properties and typed additionalProperties is expected: the generated method panics there
+    (recorded finding C19-typed-addl-null, D30); such documents are outside the guard of every value property"""
+    from .kitchen import Docs, types_of
+    dg = Docs(c.schema, None)
+
+    def walk(s, v):
+        r = dg.resolve(s) if isinstance(s, dict) else {}
+        ap = r.get("additionalProperties")
+        if v is None and r.get("properties") and isinstance(ap, dict) and types_of(ap):
+            return True
+        if isinstance(v, dict):
+            for k, x in v.items():
+                if k in r.get("properties", {}):
+                    if walk(r["properties"][k], x):
+                        return True
+                elif isinstance(ap, dict) and walk(ap, x):
+                    return True
+        if isinstance(v, list) and isinstance(r.get("items"), dict):
+            return any(walk(r["items"], x) for x in v)
+        return False
+    try:
+        return walk(c.schema, doc)
+    except Exception:
+        return False
+
+
 def site_schema(case, path):
     """the (resolved) schema node a document path points at"""
     dg = Docs(case.schema, None)
@@ -132,6 +159,8 @@ def evaluate(ctx, cases, oracle_classes, expect, what, skip=None):
             st[o["v"] if o["v"] in st else "PANIC"] += 1
             ctx.count({"schema": c.schema, "doc": d["doc"]}, cls != "valid" or bool(d["doc"]), fam)
             if o["v"] in ("PANIC", "FATAL"):
+                if "raw" not in d and typed_addl_null(c, d["doc"]):
+                    continue          # recorded finding C19-typed-addl-null
                 if nviol < 6:
                     ctx.violation("oracle", c.replay_obj(di), "%s: generated unmarshaler panicked on %s: %s" % (what, json.dumps(d["doc"])[:200], o.get("err", "")[:200]))
                 nviol += 1
